@@ -1694,7 +1694,9 @@ func IsSelectAllAggregate(query *Query) bool {
 
 func ExecSelect(query *Query, current []any) ([]any, error) {
 	copy := make([]any, 0)
-	if IsSelectAllAggregate(query) {
+	// a select list made only of aggregates collapses the whole table into one row,
+	// unless the rows are groups, in which case every group yields its own row
+	if IsSelectAllAggregate(query) && len(query.groupDefinition) == 0 {
 		rs, err := SelectExpr(query, nil, &query.selectDefinition)
 		if err != nil {
 			return nil, err
